@@ -121,6 +121,8 @@ struct World {
 }
 
 const MAX_NODES: usize = 60;
+/// bound for trees widened by AddMany (one parent with up to 300 children: inline capacities, index widths)
+const WIDE_NODES: usize = 700;
 
 fn render_check(real: &Element<String>, m: &MNode) -> Result<(), String> {
     let opts = Options::quick_xml_de();
@@ -151,7 +153,8 @@ fn apply(w: &mut World, op: &Op, st: &mut Flags) -> Result<(), String> {
                 _ => (Element::new(leaf.clone(), vec![]), MNode::new(leaf, &[])),
             };
             let total = w.model[*slot].as_ref().map(|m| m.size()).unwrap_or(0) + sub_m.size();
-            if total > MAX_NODES {
+            // subtree copies are bounded tightly (they multiply), single leaves may go on in wide trees
+            if (total > MAX_NODES && sub_m.size() > 1) || total > WIDE_NODES {
                 return Ok(());
             }
             if let (Some(r), Some(m)) = (w.real[*slot].as_mut(), w.model[*slot].as_mut()) {
@@ -267,7 +270,7 @@ fn apply(w: &mut World, op: &Op, st: &mut Flags) -> Result<(), String> {
         }
         Op::AddMany { slot, path, count } => {
             let total = w.model[*slot].as_ref().map(|m| m.size()).unwrap_or(0) + count;
-            if total > MAX_NODES + 40 {
+            if total > WIDE_NODES {
                 return Ok(());
             }
             if let (Some(r), Some(m)) = (w.real[*slot].as_mut(), w.model[*slot].as_mut()) {
@@ -430,7 +433,7 @@ fn run_tape(tape: &[u8]) -> (Vec<Op>, Result<(), String>, Flags) {
                     }
                     7 => Op::New { slot, name: t.pick(NAMES).to_string(), attrs: decode_attr_list(&mut t, false).into_iter().map(|x| x.1).collect() },
                     8 => Op::Render { slot },
-                    _ => Op::AddMany { slot, path: decode_path(&mut t, m), count: *t.pick(&[3usize, 9, 17, 33, 40]) },
+                    _ => Op::AddMany { slot, path: decode_path(&mut t, m), count: *t.pick(&[3usize, 9, 17, 33, 40, 65, 129, 257, 300]) },
                 }
             }
         };
@@ -470,6 +473,57 @@ fn small_universe() -> Vec<Op> {
 
 fn fail(e: String, ops: &[Op]) -> Failure {
     Failure::new(e).with_detail(json!({"operations": ops}))
+}
+
+
+/// hand-built shapes beyond what random sequences reach: chains of depth d (distinct names / one name; every third
+/// child marked optional, every fourth marked multiple, attribute and text at the bottom) and parents with w children
+/// (every second one optional, one removed and re-added), compared with the model and rendered
+fn deep_and_wide(d: usize, same_name: bool) -> Result<(), String> {
+    let name_of = |i: usize| if same_name { "a".to_string() } else { format!("l{}", i) };
+    let mut real: Element<String> = Element::new(name_of(d), vec!["id".to_string()]);
+    real.text = Some("t".to_string());
+    let mut model = MNode::new(&name_of(d), &["id".to_string()]);
+    model.text = Some("t".to_string());
+    for lvl in (1..d).rev() {
+        let mut p: Element<String> = Element::new(name_of(lvl), vec![]);
+        let mut mp = MNode::new(&name_of(lvl), &[]);
+        let child_name = real.name.clone();
+        if lvl % 4 == 0 {
+            real.set_multiple();
+            model.multiple = true;
+        }
+        p.add_unique_child(real);
+        let optional = lvl % 3 == 0;
+        if optional {
+            p.set_child_optional(&child_name);
+        }
+        mp.children.push((optional, model));
+        real = p;
+        model = mp;
+    }
+    same(&real, &model, "").map_err(|e| format!("chain of depth {}: {}", d, e))?;
+    render_check(&real, &model).map_err(|e| format!("chain of depth {}: {}", d, e.lines().next().unwrap_or("")))?;
+    // a wide parent
+    let w = d;
+    let mut real: Element<String> = Element::new("r".to_string(), vec![]);
+    let mut model = MNode::new("r", &[]);
+    for i in 0..w {
+        let n = format!("k{}", i);
+        real.add_unique_child(Element::new(n.clone(), vec!["id".to_string()]));
+        model.children.push((false, MNode::new(&n, &["id".to_string()])));
+        if i % 2 == 1 {
+            real.set_child_optional(&n);
+            model.children.last_mut().unwrap().0 = true;
+        }
+    }
+    // remove the first child and add it again: it must be present exactly once
+    if let Some(c) = real.remove_child(&"k0".to_string()) {
+        real.add_unique_child(c.into_inner_t());
+    }
+    same(&real, &model, "").map_err(|e| format!("parent with {} children: {}", w, e))?;
+    render_check(&real, &model).map_err(|e| format!("parent with {} children: {}", w, e.lines().next().unwrap_or("")))?;
+    Ok(())
 }
 
 impl Property for C16 {
@@ -561,6 +615,18 @@ impl Property for C16 {
                 firstf = f;
             }
         }
+        // deep and wide hand-built trees
+        if firstf.is_none() {
+            for &d in super::smallscope::BIG_SIZES {
+                for same_name in [false, true] {
+                    st.evaluations += 1;
+                    st.count("deep_and_wide_trees");
+                    if let Err(e) = deep_and_wide(d, same_name) {
+                        return Err((Failure::new(format!("hand-built tree: {}", e)), json!({"deep_and_wide": d, "same_name": same_name})));
+                    }
+                }
+            }
+        }
         st.add("exhaustive.max_length", maxlen as u64);
         st.add("exhaustive.op_universe", n as u64);
         match firstf {
@@ -572,11 +638,14 @@ impl Property for C16 {
         }
     }
     fn replay_custom(&self, payload: &Value) -> Result<(), Failure> {
+        if let Some(d) = payload["deep_and_wide"].as_u64() {
+            return deep_and_wide(d as usize, payload["same_name"].as_bool().unwrap_or(false)).map_err(Failure::new);
+        }
         let ops: Vec<Op> = serde_json::from_value(payload["operations"].clone()).map_err(|e| Failure::new(format!("bad payload: {}", e)))?;
         run_ops(&ops, 3).0.map_err(|e| fail(e, &ops))
     }
     fn rule(&self) -> String {
-        "exhaustive: every sequence of up to 4 (quick) / 5 (thorough) operations from a universe of 24 (add/mark-optional/remove a or b at the root or under a, three attribute merges, mark-multiple, set/clear text at both nodes) on a tree rooted r; random: tape-decoded sequences of up to 40 operations over three tree slots (subtrees are copied between slots, removed children can be re-attached), names a,b,c,d,type,ns:e, attributes id,k,type,x:y,xmlns:n,a. After every operation every tree is compared with an ordered-map model (unique child names, lookup/removal by name, no-op add, subtree kept by mark-optional); renderings (intermediate and final) must satisfy the C04 oracle and reflect exactly the model's children, attributes, optionality, multiplicity and text. Non-trivial = the sequence contains add-after-mark-optional, remove-then-add or merge-after-add on one node; distinct by hash of the sequence (random) or by enumeration (exhaustive).".into()
+        "fixed: hand-built chains of depth d and parents with d children for d around 16..300 (every third child optional, every fourth multiple, attribute and text at the bottom, one child removed and re-added); exhaustive: every sequence of up to 4 (quick) / 5 (thorough) operations from a universe of 24 (add/mark-optional/remove a or b at the root or under a, three attribute merges, mark-multiple, set/clear text at both nodes) on a tree rooted r; random: tape-decoded sequences of up to 40 operations over three tree slots (subtrees are copied between slots, removed children can be re-attached), names a,b,c,d,type,ns:e, attributes id,k,type,x:y,xmlns:n,a. After every operation every tree is compared with an ordered-map model (unique child names, lookup/removal by name, no-op add, subtree kept by mark-optional); renderings (intermediate and final) must satisfy the C04 oracle and reflect exactly the model's children, attributes, optionality, multiplicity and text. Non-trivial = the sequence contains add-after-mark-optional, remove-then-add or merge-after-add on one node; distinct by hash of the sequence (random) or by enumeration (exhaustive).".into()
     }
     fn assumptions(&self) -> Vec<String> {
         vec![
